@@ -27,6 +27,7 @@ STACKS = [
     ("rs3/szs3", [{}, {"m": "new"}]), ("rs4/szs4", [{}, {"m": "new"}]),
     ("rs1/ss1/szs1", [{}, {"m": "new"}, {"m": "new"}]),
     ("anb/sac1_1", []), ("anb/sac6_2", []), ("anb/sac8_1", []), ("anb/szac6_2", []), ("anb/szac8_1", []), ("r9/sa/sza", [{}, {"m": "inv", "a": 2, "b": 0}, {"m": "inv", "a": 13, "b": 1}]),
+    ("anb/sa", [{}, {"m": "inv", "a": 1, "b": 1}]),
 ]
 
 
@@ -63,6 +64,10 @@ def vectors(r, big):
     # the only one of the first upper block right before its end, the next ones inside the second upper block
     vs.append((P32 + 20000, [P32 - 100, P32 + 10000, P32 + 15000]))
     vs.append((P32 + 20000, [5, P32 - 1, P32, P32 + 19999]))
+    # two ones per inventory entry (log2 = 1): the second entry spans more than 2^32 bits and its second one is
+    # stored locally (subinventory of two words)
+    g = 5_000_000_000
+    vs.append((g + 100, [0, 1, 10, 20, g, g + 1, g + 50, g + 51]))
     return vs
 
 
@@ -126,9 +131,9 @@ def ops_for(r, n, runs):
 
 # (vector index in vectors(), stack index in STACKS): the combinations that reach the code that only exists for
 # vectors beyond 2^32 bits (64-bit spans that are not the first entry, inventory entries next to an upper block)
-ESSENTIAL = [(-3, 7), (-3, 8), (-3, 11), (-2, 18), (-2, 21), (-2, 24), (-1, 19), (-1, 22), (1, 7), (2, 18), (0, 0), (0, 3),
-             (0, 6), (3, 22), (3, 14), (5, 2), (6, 23), (2, 28), (-3, 34), (-2, 20), (-1, 25), (-3, 29), (-3, 30), (-3, 31),
-             (1, 29), (1, 33)]
+ESSENTIAL = [(-4, 7), (-4, 8), (-4, 11), (-3, 18), (-3, 21), (-3, 24), (-2, 19), (-2, 22), (1, 7), (2, 18), (0, 0), (0, 3),
+             (0, 6), (3, 22), (3, 14), (5, 2), (6, 23), (2, 28), (-4, 34), (-3, 20), (-2, 25), (-4, 29), (-4, 30), (-4, 31),
+             (1, 29), (1, 33), (-1, 29), (-1, 35), (-1, 14)]
 # (dense vector index, stack index)
 DENSE = [(0, 18), (0, 21), (0, 1), (1, 19), (1, 9), (1, 24), (2, 20), (2, 13), (3, 22), (3, 6), (0, 16), (1, 4), (2, 0), (3, 27)]
 
